@@ -1,29 +1,39 @@
 """Facts about the job graph and the job-group bookkeeping (helpers of C05 / C06).
 
-Part 1 - a micro-world interpreter for stored routines.  A handful of tables (jobs, job_parents, job_groups, the tally table, the
-          closure table ...) are given a few concrete rows; the *extracted* routine body is interpreted statement by statement over
-          them (multi-table UPDATE with joins / derived tables, SELECT .. INTO, cursors, IF / LOOP / CALL, transactions).  Everything
-          the model does not determine (unmodelled tables, columns, functions) evaluates to UNKNOWN; a decision that would depend on
-          UNKNOWN raises AnalysisError (the caller declines).  Nothing is sent to a database: this is our own evaluator over the
-          syntax tree, on a finite domain, so the verdict concerns the COMPOSITE effect of a routine and is insensitive to how the
-          effect is split over statements, helper procedures, guards or join shapes.
+Part 1 - ABSTRACT execution of stored routines over symbolic state.  No row, id or count is ever given a concrete value:
+
+          * ids and tokens are opaque symbols (`Sym`), compared only for identity;
+          * counts (n_pending_parents, tallies, job counts, number of parents in a state) are integer linear forms (`Lin`) over
+            count symbols; a comparison is decided from the interval CLASS of the symbols in the current case ({1, >=2},
+            {0, >=1} ...) and, where the class does not decide it, the case is split (explicit case split, demand driven:
+            only the atoms the code really tests are split);
+          * enum-valued fields (job states, the reported new_state, NULL / same / other attempt id) are split over their members
+            when read (truth table over enum members);
+          * WHICH rows a statement touches is never found by running a join: the FROM / ON / WHERE of the statement is brought to
+            a normal form (equality closure over column and value terms, derived tables and IN-subqueries flattened, residual
+            conjuncts kept) and compared with the canonical selection of a ROLE ("the job itself", "its dependents", "the tally rows
+            of its group and ancestors", ...).  Equal normal form -> the statement acts on that role's symbolic row; same tables but a
+            different partition -> a recognisably different row set (reported by the caller); anything else -> AnalysisError.
+
+          The result of one case is the symbolic post-state of every role row; the caller compares it with the table the property
+          prescribes (normal forms of the linear forms, members of the enums).  Concrete numbers appear only when a case is printed
+          as a witness (`Case.describe`).
 Part 2 - who-may-write / shape analysis of `job_group_self_and_ancestors` (the closure table every roll-up trusts) and of the staged
           job counts, on the Python side.
 """
 from __future__ import annotations
 
 import ast
-import copy
 from typing import Any, Callable, Dict, Iterable, List, Optional, Sequence, Set, Tuple
 
 from . import pyfacts as pf
 from . import sqlfront as sf
 from .common import AnalysisError
+from .linform import Lin
 from .sqlast import N, text
-from .sqleval import Unbound, _truth, ev
 
 # ======================================================================================
-# Part 1: micro-world interpreter
+# abstract values
 # ======================================================================================
 
 
@@ -35,85 +45,778 @@ class _Unknown:
 UNK = _Unknown()
 
 
+class Sym:
+    """Opaque identity (an id, a token).  Two symbols with different names denote different things unless the domain says
+    they may coincide."""
+    __slots__ = ('name',)
+
+    def __init__(self, name: str):
+        self.name = name
+
+    def __eq__(self, o: object) -> bool:
+        return isinstance(o, Sym) and o.name == self.name
+
+    def __hash__(self) -> int:
+        return hash(('Sym', self.name))
+
+    def __repr__(self) -> str:
+        return f'<{self.name}>'
+
+
+class EnumVal:
+    """A field whose value is one member of a finite enum; resolved through the current case when read."""
+    __slots__ = ('name',)
+
+    def __init__(self, name: str):
+        self.name = name
+
+    def __repr__(self) -> str:
+        return f'enum:{self.name}'
+
+
 class Undecided(Exception):
-    """Evaluation needs a value the model does not determine."""
+    """The abstract value needed is UNKNOWN."""
 
 
-class _Leave(Exception):
-    def __init__(self, label: str):
-        self.label = label.lower()
+class NeedSplit(Exception):
+    def __init__(self, cases: List['Case'], why: str):
+        self.cases = cases
+        self.why = why
 
 
-class _Iterate(Exception):
-    def __init__(self, label: str):
-        self.label = label.lower()
+class Mismatch(Exception):
+    """A statement writes a tracked table with a selection that is recognisably NOT the canonical one."""
 
-
-class _Abort(Exception):
-    """SIGNAL: the statement fails, the open transaction is rolled back by the caller."""
-
-
-AGGS = ('SUM', 'COUNT', 'MAX', 'MIN')
-
-
-class Bind:
-    """One table reference bound to one row (None = NULL-extended by an outer join; opaque = unmodelled table)."""
-
-    __slots__ = ('alias', 'table', 'row', 'opaque', 'cols')
-
-    def __init__(self, alias: str, table: Optional[str], row: Optional[Dict[str, Any]], cols: Sequence[str], opaque: bool = False):
-        self.alias = alias
+    def __init__(self, table: str, st: N, what: str):
         self.table = table
-        self.row = row
-        self.opaque = opaque
-        self.cols = list(cols)
+        self.st = st
+        self.what = what
 
-    def has_col(self, name: str) -> Optional[bool]:
-        if self.opaque and not self.cols:
-            return None  # unknown schema
-        return name in self.cols
 
-    def value(self, name: str) -> Any:
-        if self.opaque:
-            raise Undecided(f'{self.alias}.{name} (table not modelled)')
-        if self.row is None:
+def lin_of(v: Any) -> Optional[Lin]:
+    if isinstance(v, Lin):
+        return v
+    if isinstance(v, bool):
+        return Lin({}, int(v))
+    if isinstance(v, int):
+        return Lin({}, v)
+    return None
+
+
+def simp(v: Any) -> Any:
+    if isinstance(v, Lin) and v.is_const():
+        return int(v.const)
+    if isinstance(v, bool):
+        return int(v)
+    return v
+
+
+class Domain:
+    def __init__(self, enums: Dict[str, List[Any]], ivals: Dict[str, Tuple[Optional[int], Optional[int]]], maybe_equal: Iterable[Tuple[str, str]] = (),
+                 labels: Optional[Dict[str, str]] = None, split_budget: int = 3):
+        self.enums = enums
+        self.ivals = ivals
+        self.maybe_equal = {frozenset(p) for p in maybe_equal}
+        self.labels = labels or {}
+        self.split_budget = split_budget
+
+
+class Case:
+    """One abstract case: chosen enum members, interval classes of count symbols (or of whole linear forms), unifications."""
+
+    def __init__(self, dom: Domain):
+        self.dom = dom
+        self.choice: Dict[str, Any] = {}
+        self.pv: Dict[str, Tuple[Optional[int], Optional[int]]] = {}
+        self.subst: Dict[str, Lin] = {}
+        self.nsplit: Dict[str, int] = {}
+
+    def clone(self) -> 'Case':
+        c = Case(self.dom)
+        c.choice = dict(self.choice)
+        c.pv = dict(self.pv)
+        c.subst = dict(self.subst)
+        c.nsplit = dict(self.nsplit)
+        return c
+
+    # -- enums -------------------------------------------------------------------------
+    def enum(self, name: str) -> Any:
+        if name in self.choice:
+            return self.choice[name]
+        if name not in self.dom.enums:
+            raise AnalysisError(f'abstract domain: no enum named {name}')
+        out = []
+        for m in self.dom.enums[name]:
+            c = self.clone()
+            c.choice[name] = m
+            out.append(c)
+        raise NeedSplit(out, f'enum {name}')
+
+    # -- linear forms ------------------------------------------------------------------
+    def norm(self, L: Lin) -> Lin:
+        for _ in range(8):
+            hit = [s for s in L.coef if s in self.subst]
+            if not hit:
+                return L
+            out = Lin({}, L.const)
+            for s, c in L.coef.items():
+                out = out + (self.subst[s].scale(c) if s in self.subst else Lin({s: c}, 0))
+            L = out
+        raise AnalysisError('abstract domain: substitution does not terminate')
+
+    def interval(self, s: str) -> Tuple[Optional[int], Optional[int]]:
+        if s in self.pv:
+            return self.pv[s]
+        return self.dom.ivals.get(s, (None, None))
+
+    def bounds(self, P: Lin) -> Tuple[Optional[int], Optional[int]]:
+        lo: Optional[int] = int(P.const)
+        hi: Optional[int] = int(P.const)
+        for s, c in P.coef.items():
+            a, b = self.interval(s)
+            c = int(c)
+            if c >= 0:
+                l2 = None if a is None else c * a
+                h2 = None if b is None else c * b
+            else:
+                l2 = None if b is None else c * b
+                h2 = None if a is None else c * a
+            lo = None if (lo is None or l2 is None) else lo + l2
+            hi = None if (hi is None or h2 is None) else hi + h2
+        key = repr(P)
+        if key in self.pv and len(P.coef) > 1:
+            a, b = self.pv[key]
+            lo = a if lo is None else (lo if a is None else max(lo, a))
+            hi = b if hi is None else (hi if b is None else min(hi, b))
+        return lo, hi
+
+    def sign(self, L: Lin) -> int:
+        """Sign of the linear form in this case; raises NeedSplit when the case does not decide it."""
+        L = self.norm(L)
+        if L.is_const():
+            return (L.const > 0) - (L.const < 0)
+        syms = sorted(L.coef)
+        s = 1 if L.coef[syms[0]] > 0 else -1
+        P = Lin({k: int(v) * s for k, v in L.coef.items()}, 0)
+        t = -int(L.const) * s  # L = s * (P - t)
+        lo, hi = self.bounds(P)
+        if lo is not None and lo > t:
+            return s
+        if hi is not None and hi < t:
+            return -s
+        if lo is not None and hi is not None and lo == hi == t:
+            return 0
+        raise NeedSplit(self._refine(P, t, lo, hi), f'sign of {L!r}')
+
+    def _refine(self, P: Lin, t: int, lo: Optional[int], hi: Optional[int]) -> List['Case']:
+        def sub_intervals(a: Optional[int], b: Optional[int], q: int, exact: bool) -> List[Tuple[Optional[int], Optional[int]]]:
+            out: List[Tuple[Optional[int], Optional[int]]] = []
+            if a is None or a <= q - 1:
+                out.append((a, q - 1 if b is None else min(q - 1, b)))
+            if exact and (a is None or a <= q) and (b is None or q <= b):
+                out.append((q, q))
+            lo2 = q + 1 if exact else q
+            if b is None or lo2 <= b:
+                out.append((lo2 if a is None else max(lo2, a), b))
+            return [(x, y) for x, y in out if x is None or y is None or x <= y]
+
+        syms = sorted(P.coef)
+        if len(syms) == 1:
+            x = syms[0]
+            c = int(P.coef[x])  # > 0 by normalisation
+            a, b = self.interval(x)
+            exact = t % c == 0
+            q = t // c if exact else t // c + 1  # x < q | x = q | x > q   resp.  x <= q-1 | x >= q
+            out = []
+            for iv in sub_intervals(a, b, q, exact):
+                cs = self.clone()
+                cs.pv[x] = iv
+                out.append(cs)
+            return out
+        # several symbols: first split the CLASS of a count symbol ({lo} | >lo), a bounded number of times per symbol
+        for x in syms:
+            a, b = self.interval(x)
+            if x not in self.dom.ivals or a is None or (b is not None and a == b):
+                continue
+            if self.nsplit.get(x, 0) >= self.dom.split_budget:
+                continue
+            out = []
+            for iv in ((a, a), (a + 1, b)):
+                if iv[1] is not None and iv[0] > iv[1]:
+                    continue
+                cs = self.clone()
+                cs.pv[x] = iv
+                cs.nsplit[x] = self.nsplit.get(x, 0) + 1
+                out.append(cs)
+            return out
+        # otherwise split on the relation itself (order class of the form w.r.t. the threshold)
+        key = repr(P)
+        out = []
+        for iv in sub_intervals(lo, hi, t, True):
+            cs = self.clone()
+            cs.pv[key] = iv
+            if iv[0] is not None and iv[0] == iv[1]:
+                for x in syms:
+                    if abs(int(P.coef[x])) == 1 and x not in self.dom.ivals:
+                        c = int(P.coef[x])
+                        rest = Lin({k: v for k, v in P.coef.items() if k != x}, 0)
+                        cs.subst[x] = (Lin({}, iv[0]) - rest).scale(c)  # x = (t - rest) / c, c = +-1
+                        break
+            out.append(cs)
+        return out
+
+    # -- printing (witness only) -------------------------------------------------------
+    def describe(self) -> str:
+        parts = []
+        for k, v in self.choice.items():
+            lab = self.dom.labels.get(k, k)
+            parts.append(f'{lab} = {"NULL" if v is None else (v.name if isinstance(v, Sym) else v)}')
+        for k, (a, b) in self.pv.items():
+            lab = self.dom.labels.get(k, k)
+            if a is not None and a == b:
+                parts.append(f'{lab} = {a}')
+            elif b is None:
+                parts.append(f'{lab} >= {a}' if a is not None else f'{lab} unconstrained')
+            elif a is None:
+                parts.append(f'{lab} <= {b}')
+            else:
+                parts.append(f'{a} <= {lab} <= {b}')
+        return '; '.join(parts)
+
+
+def explore(dom: Domain, run: Callable[[Case], Any], max_cases: int = 6000) -> List[Tuple[Case, Any]]:
+    """Demand-driven case enumeration: run the abstract execution; whenever it cannot decide something in the current case, split
+    the case and run again from the start."""
+    todo = [Case(dom)]
+    out: List[Tuple[Case, Any]] = []
+    n = 0
+    while todo:
+        c = todo.pop()
+        n += 1
+        if n > max_cases:
+            raise AnalysisError(f'abstract execution: more than {max_cases} cases')
+        try:
+            out.append((c, run(c)))
+        except NeedSplit as s:
+            if not s.cases:
+                raise AnalysisError(f'abstract execution: empty refinement ({s.why})')
+            todo.extend(reversed(s.cases))
+    return out
+
+
+# ======================================================================================
+# abstract expression evaluation (three-valued, NULL = None)
+# ======================================================================================
+
+Env = Callable[[N], Any]
+
+
+def _truth(v: Any) -> Optional[bool]:
+    if v is None:
+        return None
+    if isinstance(v, Lin):
+        raise AnalysisError('truth value of a symbolic count (compare it with something)')
+    if isinstance(v, str):
+        try:
+            return float(v) != 0
+        except ValueError:
+            return False
+    if isinstance(v, Sym):
+        raise AnalysisError(f'truth value of the opaque symbol {v}')
+    return bool(v)
+
+
+class AbsEval:
+    def __init__(self, case: Case):
+        self.case = case
+
+    def res(self, v: Any) -> Any:
+        """Resolve placeholders: enum fields through the case."""
+        if isinstance(v, EnumVal):
+            return self.case.enum(v.name)
+        if v is UNK:
+            raise Undecided('unknown value')
+        return simp(v)
+
+    def eq(self, a: Any, b: Any) -> Optional[int]:
+        if a is None or b is None:
             return None
-        if name in self.row:
-            v = self.row[name]
-            if v is UNK:
-                raise Undecided(f'{self.alias}.{name}')
-            return v
-        if name in self.cols:
-            raise Undecided(f'{self.alias}.{name} (column not modelled)')
-        raise AnalysisError(f'unknown column {self.alias}.{name}')
+        la, lb = lin_of(a), lin_of(b)
+        if la is not None and lb is not None:
+            return int(self.case.sign(la - lb) == 0)
+        if isinstance(a, Sym) or isinstance(b, Sym):
+            if isinstance(a, Sym) and isinstance(b, Sym):
+                if a.name == b.name:
+                    return 1
+                if frozenset((a.name, b.name)) in self.case.dom.maybe_equal:
+                    raise AnalysisError(f'the symbols {a} and {b} may or may not coincide: comparison not decided')
+                return 0
+            raise AnalysisError(f'comparison of the opaque symbol {a if isinstance(a, Sym) else b} with {b if isinstance(a, Sym) else a!r}')
+        if isinstance(a, str) and isinstance(b, str):
+            return int(a.lower() == b.lower())
+        raise AnalysisError(f'comparison of {a!r} with {b!r} (mixed types)')
+
+    def cmp(self, op: str, a: Any, b: Any) -> Optional[int]:
+        if op == '<=>':
+            if a is None or b is None:
+                return int(a is None and b is None)
+            return self.eq(a, b)
+        if a is None or b is None:
+            return None
+        if op == '=':
+            return self.eq(a, b)
+        if op in ('!=', '<>'):
+            r = self.eq(a, b)
+            return None if r is None else 1 - r
+        la, lb = lin_of(a), lin_of(b)
+        if la is not None and lb is not None:
+            s = self.case.sign(la - lb)
+            return int({'<': s < 0, '<=': s <= 0, '>': s > 0, '>=': s >= 0}[op])
+        if isinstance(a, str) and isinstance(b, str):
+            x, y = a.lower(), b.lower()
+            return int({'<': x < y, '<=': x <= y, '>': x > y, '>=': x >= y}[op])
+        raise AnalysisError(f'order comparison of {a!r} with {b!r}')
+
+    def ev(self, e: N, env: Env) -> Any:
+        k = e.kind
+        if k == 'lit':
+            if e.value is True:
+                return 1
+            if e.value is False:
+                return 0
+            return e.value
+        if k in ('col', 'uvar', 'param', 'hole'):
+            return self.res(env(e))
+        if k == 'un':
+            v = self.ev(e.arg, env)
+            if e.op == 'NOT':
+                t = _truth(v)
+                return None if t is None else int(not t)
+            if e.op == '-':
+                if v is None:
+                    return None
+                lv = lin_of(v)
+                if lv is None:
+                    raise AnalysisError(f'unary minus of {v!r}')
+                return simp(-lv)
+            raise AnalysisError(f'unary {e.op}')
+        if k == 'isnull':
+            v = self.ev(e.arg, env)
+            return int((v is None) != e.negated)
+        if k == 'bin':
+            op = e.op
+            if op == 'AND':
+                a = _truth(self.ev(e.left, env))
+                if a is False:
+                    return 0
+                b = _truth(self.ev(e.right, env))
+                if b is False:
+                    return 0
+                return None if (a is None or b is None) else 1
+            if op == 'OR':
+                a = _truth(self.ev(e.left, env))
+                if a is True:
+                    return 1
+                b = _truth(self.ev(e.right, env))
+                if b is True:
+                    return 1
+                return None if (a is None or b is None) else 0
+            if op == ':=':
+                return self.ev(e.right, env)
+            a = self.ev(e.left, env)
+            b = self.ev(e.right, env)
+            if op in ('=', '!=', '<>', '<', '<=', '>', '>=', '<=>'):
+                return self.cmp(op, a, b)
+            if a is None or b is None:
+                return None
+            la, lb = lin_of(a), lin_of(b)
+            if la is None or lb is None:
+                raise AnalysisError(f'arithmetic {op} on {a!r}, {b!r}')
+            if op == '+':
+                return simp(la + lb)
+            if op == '-':
+                return simp(la - lb)
+            if op == '*':
+                if la.is_const():
+                    return simp(lb.scale(int(la.const)))
+                if lb.is_const():
+                    return simp(la.scale(int(lb.const)))
+            raise AnalysisError(f'operator {op} on symbolic counts')
+        if k == 'in':
+            if not isinstance(e.items, list):
+                raise AnalysisError('IN (subquery) inside an expression')
+            a = self.ev(e.arg, env)
+            if a is None:
+                return None
+            saw_null = hit = False
+            for it in e.items:
+                b = self.ev(it, env)
+                if b is None:
+                    saw_null = True
+                elif self.eq(a, b):
+                    hit = True
+            if hit:
+                return int(not e.negated)
+            return None if saw_null else int(e.negated)
+        if k == 'func':
+            name = e.name
+            if name in ('COALESCE', 'IFNULL'):
+                for a in e.args:
+                    v = self.ev(a, env)
+                    if v is not None:
+                        return v
+                return None
+            if name == 'IF':
+                c = _truth(self.ev(e.args[0], env))
+                return self.ev(e.args[1], env) if c else self.ev(e.args[2], env)
+            raise Undecided(f'function {name}')
+        if k == 'cast':
+            return self.ev(e.arg, env)
+        if k == 'case':
+            if e.arg is not None:
+                base = self.ev(e.arg, env)
+                for c, v in e.whens:
+                    if self.cmp('=', base, self.ev(c, env)):
+                        return self.ev(v, env)
+            else:
+                for c, v in e.whens:
+                    if _truth(self.ev(c, env)):
+                        return self.ev(v, env)
+            return self.ev(e.default, env) if e.default is not None else None
+        raise Undecided(f'expression kind {k}')
 
 
-class World:
-    def __init__(self, schema: Dict[str, List[str]], rows: Dict[str, List[Dict[str, Any]]]):
-        self.schema = {t.lower(): [c.lower() for c in cs] for t, cs in schema.items()}
-        self.rows = {t.lower(): [dict(r) for r in rs] for t, rs in rows.items()}
+# ======================================================================================
+# normal form of a selection (FROM / ON / WHERE)
+# ======================================================================================
 
-    def clone(self) -> 'World':
-        return World(self.schema, self.rows)
 
-    def snapshot(self) -> Dict[str, List[Dict[str, Any]]]:
-        return {t: [dict(r) for r in rs] for t, rs in self.rows.items()}
+class Inst:
+    """One table instance of a selection."""
 
-    def restore(self, snap: Dict[str, List[Dict[str, Any]]]) -> None:
-        # in place: Bind objects of running cursors never outlive a statement, so replacing the lists is safe
-        self.rows = {t: [dict(r) for r in rs] for t, rs in snap.items()}
+    def __init__(self, alias: str, table: Optional[str], jtype: str, cols: Sequence[str], colmap: Optional[Dict[str, str]] = None, agg: Optional[N] = None):
+        self.alias = alias
+        self.table = table        # underlying table name (lower) or None for an aggregating derived table
+        self.jtype = jtype        # FIRST | INNER | LEFT | SEMI
+        self.cols = list(cols)    # visible column names
+        self.colmap = colmap      # visible name -> underlying column (flattened derived table)
+        self.agg = agg            # the SELECT node of an aggregating derived table
+        self.on: List[N] = []     # ON conjuncts when LEFT-joined
 
-    def modelled(self, table: str) -> bool:
-        return table.lower() in self.rows
+    def under(self, col: str) -> str:
+        return self.colmap.get(col, col) if self.colmap else col
 
-    def cols_of(self, table: str) -> List[str]:
-        t = table.lower()
-        cs = list(self.schema.get(t, []))
-        for r in self.rows.get(t, [])[:1]:
-            for c in r:
-                if c not in cs:
-                    cs.append(c)
-        return cs
+
+Term = Tuple  # ('c', alias, column)  |  ('v', key)
+
+
+class Sel:
+    def __init__(self) -> None:
+        self.insts: Dict[str, Inst] = {}
+        self.parent: Dict[Term, Term] = {}
+        self.values: Dict[Term, Any] = {}
+        self.residual: List[N] = []
+
+    def find(self, t: Term) -> Term:
+        self.parent.setdefault(t, t)
+        while self.parent[t] != t:
+            self.parent[t] = self.parent[self.parent[t]]
+            t = self.parent[t]
+        return t
+
+    def union(self, a: Term, b: Term) -> None:
+        ra, rb = self.find(a), self.find(b)
+        if ra != rb:
+            self.parent[ra] = rb
+
+    def classes(self) -> List[Set[Term]]:
+        out: Dict[Term, Set[Term]] = {}
+        for t in list(self.parent):
+            out.setdefault(self.find(t), set()).add(t)
+        return [c for c in out.values()]
+
+    def class_of(self, alias: str, col: str) -> Set[Term]:
+        t = ('c', alias, col)
+        r = self.find(t)
+        return {x for x in list(self.parent) if self.find(x) == r}
+
+    def pinned(self, alias: str, col: str) -> List[Any]:
+        return [self.values[x] for x in self.class_of(alias, col) if x[0] == 'v']
+
+
+def value_key(v: Any) -> str:
+    if isinstance(v, Sym):
+        return 'sym:' + v.name
+    if isinstance(v, Lin):
+        return 'lin:' + repr(v)
+    return 'lit:' + repr(v)
+
+
+def _is_plain_projection(sel: N) -> bool:
+    if sel.group or sel.having is not None or sel.limit is not None or sel.distinct or getattr(sel, 'union', None) or getattr(sel, 'ctes', None):
+        return False
+    if sel.frm is None or sel.frm.joins or sel.frm.first.kind != 'table':
+        return False
+    return all(c.kind == 'col' for c, _ in sel.cols)
+
+
+class SelBuilder:
+    """Builds the normal form; `value_of(expr)` gives the abstract value of a variable / literal expression or raises Undecided."""
+
+    def __init__(self, schema: Dict[str, List[str]], is_var: Callable[[str], bool], value_of: Callable[[N], Any]):
+        self.schema = schema
+        self.is_var = is_var
+        self.value_of = value_of
+
+    def build(self, frm: N, where: Optional[N]) -> Sel:
+        s = Sel()
+        pending: List[Tuple[N, Optional[str]]] = []  # (conjunct, scope alias for columns of a flattened inner select)
+        self._add_from(s, frm, 'FIRST', None, pending)
+        for c in sf.conjuncts(where):
+            pending.append((c, None))
+        for c, scope in pending:
+            self._conjunct(s, c, scope)
+        return s
+
+    def _add_from(self, s: Sel, ref: N, jtype: str, on: Optional[N], pending: List[Tuple[N, Optional[str]]]) -> None:
+        if ref.kind == 'from':
+            self._add_from(s, ref.first, jtype, None, pending)
+            for j in ref.joins:
+                if getattr(j, 'using', None):
+                    raise AnalysisError('JOIN ... USING')
+                jt = 'INNER' if j.jtype in ('INNER', 'CROSS') else j.jtype
+                if jt not in ('INNER', 'LEFT'):
+                    raise AnalysisError(f'{j.jtype} JOIN')
+                self._add_from(s, j.ref, jt, j.on, pending)
+            if on is not None:
+                for c in sf.conjuncts(on):
+                    pending.append((c, None))
+            return
+        if ref.kind == 'table':
+            name = ref.name.lower().strip('`')
+            alias = (ref.alias or ref.name).lower().strip('`')
+            inst = Inst(alias, name, jtype, self.schema.get(name, []))
+        elif ref.kind == 'derived':
+            if getattr(ref, 'lateral', False):
+                raise AnalysisError('LATERAL derived table')
+            sub = ref.select
+            alias = ref.alias.lower().strip('`')
+            if _is_plain_projection(sub):
+                inner = sub.frm.first
+                name = inner.name.lower().strip('`')
+                colmap = {}
+                for c, a in sub.cols:
+                    colmap[(a or c.parts[-1]).lower().strip('`')] = c.parts[-1].lower().strip('`')
+                inst = Inst(alias, name, jtype, list(colmap), colmap=colmap)
+                for c in sf.conjuncts(sub.where):
+                    pending.append((c, alias))
+            else:
+                names = [(a or (c.parts[-1] if c.kind == 'col' else text(c))).lower().strip('`') for c, a in sub.cols]
+                inst = Inst(alias, None, jtype, names, agg=sub)
+        else:
+            raise AnalysisError(f'table reference kind {ref.kind}')
+        if alias in s.insts:
+            raise AnalysisError(f'table alias {alias} used twice')
+        s.insts[alias] = inst
+        if on is not None:
+            if jtype == 'LEFT':
+                inst.on = sf.conjuncts(on)
+            else:
+                for c in sf.conjuncts(on):
+                    pending.append((c, None))
+
+    def _term(self, s: Sel, e: N, scope: Optional[str]) -> Optional[Term]:
+        if e.kind == 'col':
+            parts = [p.lower().strip('`') for p in e.parts]
+            if len(parts) == 1:
+                if self.is_var(parts[0]):
+                    return self._vterm(s, e)
+                if scope is not None:
+                    return ('c', scope, parts[0])
+                cands = [a for a, i in s.insts.items() if parts[0] in i.cols]
+                if len(cands) == 1:
+                    return ('c', cands[0], s.insts[cands[0]].under(parts[0]))
+                unknown = [a for a, i in s.insts.items() if not i.cols]
+                if unknown:
+                    raise AnalysisError(f'column {parts[0]} could belong to {unknown[0]} (schema unknown)')
+                raise AnalysisError(f'column {parts[0]} is ambiguous or unknown in the selection')
+            q = parts[-2]
+            if scope is not None:
+                # inside a flattened derived table / subquery: the inner table's own name or alias denotes the instance
+                return ('c', scope, parts[-1])
+            if q in s.insts:
+                return ('c', q, s.insts[q].under(parts[-1]))
+            byname = [a for a, i in s.insts.items() if i.table == q]
+            if len(byname) == 1:
+                return ('c', byname[0], s.insts[byname[0]].under(parts[-1]))
+            raise AnalysisError(f'unknown qualifier in {text(e)}')
+        if e.kind in ('lit', 'uvar', 'param'):
+            return self._vterm(s, e)
+        return None
+
+    def _vterm(self, s: Sel, e: N) -> Optional[Term]:
+        try:
+            v = self.value_of(e)
+        except Undecided:
+            return None
+        if isinstance(v, EnumVal) or v is UNK:
+            return None
+        t = ('v', value_key(v))
+        s.values[t] = v
+        return t
+
+    def _conjunct(self, s: Sel, c: N, scope: Optional[str]) -> None:
+        if c.kind == 'bin' and c.op == '=':
+            a, b = self._term(s, c.left, scope), self._term(s, c.right, scope)
+            if a is not None and b is not None:
+                s.union(a, b)
+                return
+        if c.kind == 'in' and not c.negated and isinstance(c.items, N) and c.items.kind == 'subq' and _is_plain_projection(c.items.select) and len(c.items.select.cols) == 1:
+            sub = c.items.select
+            a = self._term(s, c.arg, scope)
+            if a is not None:
+                inner = sub.frm.first
+                name = inner.name.lower().strip('`')
+                alias = f'{(inner.alias or inner.name).lower()}#in{len(s.insts)}'
+                s.insts[alias] = Inst(alias, name, 'SEMI', self.schema.get(name, []))
+                s.union(a, ('c', alias, sub.cols[0][0].parts[-1].lower().strip('`')))
+                for c2 in sf.conjuncts(sub.where):
+                    self._conjunct(s, c2, alias)
+                return
+        if scope is not None:
+            c = _requalify(c, scope)
+        s.residual.append(c)
+
+
+def _requalify(e: N, alias: str) -> N:
+    def repl(n: N) -> Optional[N]:
+        if n.kind == 'col':
+            return N('col', parts=[alias, n.parts[-1]])
+        return None
+    return sf.subst(e, repl)
+
+
+class Pattern:
+    """Canonical selection of a role: table variables and the partition of their columns / bound values.
+    items: 'X.col' (column of table variable X), '$name' (a value given in `bind`), '?name' (exactly one value, captured)."""
+
+    def __init__(self, name: str, tables: Dict[str, str], classes: Sequence[Sequence[str]]):
+        self.name = name
+        self.tables = tables
+        self.classes = [list(c) for c in classes]
+
+
+class Match:
+    def __init__(self, pattern: Pattern, alias: Dict[str, str], captured: Dict[str, Any], residual: List[N]):
+        self.pattern = pattern
+        self.alias = alias
+        self.captured = captured
+        self.residual = residual
+
+
+def match(sel: Sel, pat: Pattern, bind: Dict[str, Any], ignore: Callable[[Inst], bool]) -> Tuple[Optional[Match], Optional[str]]:
+    """(Match, None) when the selection has exactly the pattern's normal form; (None, None) when the tables differ (pattern not
+    applicable); (None, description) when the tables agree but the partition differs (a different row set)."""
+    insts = {a: i for a, i in sel.insts.items() if not ignore(i)}
+    want = sorted(pat.tables.values())
+    have = sorted(i.table or '?' for i in insts.values())
+    if want != have:
+        return None, None
+    if len(set(want)) != len(want):
+        raise AnalysisError(f'pattern {pat.name}: a table occurs twice')
+    alias = {v: [a for a, i in insts.items() if i.table == t][0] for v, t in pat.tables.items()}
+    for v, a in alias.items():
+        if insts[a].jtype == 'LEFT':
+            return None, f'{insts[a].table} is only LEFT-joined: rows without a matching {insts[a].table} row are selected as well'
+
+    def term(item: str) -> Term:
+        v, col = item.split('.')
+        return ('c', alias[v], col)
+    captured: Dict[str, Any] = {}
+    diffs: List[str] = []
+    covered: Set[Term] = set()
+    roots: Dict[Term, int] = {}
+    for ci, cl in enumerate(pat.classes):
+        cols = [term(i) for i in cl if not i.startswith(('$', '?'))]
+        full = sel.class_of(cols[0][1], cols[0][2])
+        r = sel.find(cols[0])
+        if r in roots:
+            diffs.append(f'{_show(cl)} is additionally equated with {_show(pat.classes[roots[r]])}')
+        roots[r] = ci
+        for t in cols[1:]:
+            if t not in full:
+                diffs.append(f'{_tshow(t, sel)} is not equated with {_tshow(cols[0], sel)}')
+        vals = [sel.values[x] for x in full if x[0] == 'v']
+        wantv = [i for i in cl if i.startswith(('$', '?'))]
+        if not wantv:
+            if vals:
+                diffs.append(f'{_tshow(cols[0], sel)} is additionally pinned to {vals[0]!r}')
+        else:
+            w = wantv[0]
+            if len(vals) != 1:
+                diffs.append(f'{_tshow(cols[0], sel)} is not pinned to {"the expected value" if not vals else "one value"} ({w[1:]})')
+            elif w.startswith('$'):
+                if value_key(vals[0]) != value_key(bind[w[1:]]):
+                    diffs.append(f'{_tshow(cols[0], sel)} is pinned to {vals[0]!r}, expected {bind[w[1:]]!r}')
+            else:
+                captured[w[1:]] = vals[0]
+        for x in full:
+            if x[0] == 'c' and x not in cols and x[1] in insts:
+                diffs.append(f'{_tshow(x, sel)} is additionally equated with {_tshow(cols[0], sel)}')
+        covered |= full
+    for cl in sel.classes():
+        if cl & covered:
+            continue
+        mine = [x for x in cl if x[0] == 'c' and x[1] in insts]
+        if len(cl) >= 2 and mine:
+            diffs.append('additional condition ' + ' = '.join(sorted(_tshow(x, sel) for x in cl)))
+    if diffs:
+        return None, '; '.join(diffs)
+    return Match(pat, alias, captured, list(sel.residual)), None
+
+
+def _show(cl: Sequence[str]) -> str:
+    return ' = '.join(cl)
+
+
+def _tshow(t: Term, sel: Sel) -> str:
+    if t[0] == 'c':
+        i = sel.insts.get(t[1])
+        return f'{(i.table if i is not None and i.table else t[1])}.{t[2]}'
+    return repr(sel.values.get(t))
+
+
+# ======================================================================================
+# abstract execution of routines over role rows
+# ======================================================================================
+
+RoleKey = Tuple[str, str]  # (table, tag)
+
+
+class Scenario:
+    """What is tracked in one analysis: the symbolic pre-state of the role rows, how key look-ups map to roles, the canonical
+    multi-table selections, and hooks for aggregating reads."""
+
+    def __init__(self, dom: Domain, schema: Dict[str, List[str]]):
+        self.dom = dom
+        self.schema = schema
+        self.rows: Dict[RoleKey, Dict[str, Any]] = {}
+        self.keycols: Dict[str, Tuple[str, ...]] = {}
+        self.keymap: Dict[Tuple[str, Tuple[str, ...]], str] = {}
+        self.bind: Dict[str, Any] = {}
+        self.update_patterns: Dict[str, List[Tuple[Pattern, Callable[['AbsExec', Match, N], List[Tuple[RoleKey, Dict[str, Dict[str, Any]]]]]]]] = {}
+        self.select_hooks: List[Callable[['AbsExec', N, 'Frame'], Optional[List[Any]]]] = []
+        self.update_hooks: List[Callable[['AbsExec', N, 'Frame'], bool]] = []
+        self.cursor_hook: Optional[Callable[['AbsExec', N, 'Frame'], Optional[Dict[str, Any]]]] = None
+
+    @property
+    def tracked(self) -> Set[str]:
+        return {t for t, _ in self.rows} | set(self.keycols)
+
+    def add_row(self, table: str, tag: str, fields: Dict[str, Any], key: Optional[Sequence[Any]] = None) -> None:
+        self.rows[(table, tag)] = dict(fields)
+        if key is not None:
+            self.keymap[(table, tuple(value_key(v) for v in key))] = tag
 
 
 class Frame:
@@ -124,366 +827,181 @@ class Frame:
         self.handlers: List[N] = []
 
 
-Scopes = List[List[Bind]]
+class _Leave(Exception):
+    def __init__(self, label: str):
+        self.label = label.lower()
 
 
-_STATIC: Dict[Tuple, Any] = {}  # facts about (immutable, cached) syntax trees, keyed by node identity and the set of modelled tables
+class _Abort(Exception):
+    pass
 
 
-class Interp:
-    """Interprets effective routines of `prog` over `world`.  `log` receives (routine, statement, rows written) for every UPDATE of
-    a modelled table, so that a report can name the statements that produced an effect."""
+_STATIC: Dict[Tuple, Any] = {}
 
-    MAX_ITER = 64
 
-    def __init__(self, prog: sf.SqlProgram, world: World, max_call_depth: int = 3):
+class AbsExec:
+    def __init__(self, prog: sf.SqlProgram, scn: Scenario, case: Case, max_call_depth: int = 3):
         self.prog = prog
-        self.world = world
-        self.max_call_depth = max_call_depth
+        self.scn = scn
+        self.case = case
+        self.E = AbsEval(case)
+        self.rows: Dict[RoleKey, Dict[str, Any]] = {k: dict(v) for k, v in scn.rows.items()}
+        self.snapshot = {k: dict(v) for k, v in self.rows.items()}
         self.uvars: Dict[str, Any] = {}
-        self.txn_snapshot = world.snapshot()
-        self.writes: List[Tuple[str, N, str, int]] = []  # (routine, statement, table, n rows)
-        self._wkey = tuple(sorted(world.rows))
+        self.events: List[Tuple[str, Any]] = []
+        self.writes: List[Tuple[str, N, RoleKey]] = []
+        self.max_call_depth = max_call_depth
+        self._tk = tuple(sorted(scn.tracked))
 
-    # -- expressions -----------------------------------------------------------------
-    def _lookup(self, n: N, scopes: Scopes, frame: Optional[Frame]) -> Any:
-        if n.kind == 'uvar':
-            v = self.uvars.get(n.name.lower(), None)
-            if v is UNK:
-                raise Undecided('@' + n.name)
-            return v
-        if n.kind != 'col':
-            raise Undecided(text(n))
-        parts = [p.lower().strip('`') for p in n.parts]
-        if len(parts) == 1:
-            name = parts[0]
-            if frame is not None and name in frame.vars:
-                v = frame.vars[name]
-                if v is UNK:
-                    raise Undecided(name)
-                return v
-            for level in scopes:
-                cands = [b for b in level if b.has_col(name)]
-                maybe = [b for b in level if b.has_col(name) is None]
-                if maybe:
-                    raise Undecided(f'{name} (could belong to unmodelled table {maybe[0].alias})')
-                if len(cands) == 1:
-                    return cands[0].value(name)
-                if len(cands) > 1:
-                    raise AnalysisError(f'ambiguous column {name}')
-            raise AnalysisError(f'identifier `{name}` is neither a variable nor a column in scope')
-        q, name = parts[-2], parts[-1]
-        for level in scopes:
-            for b in level:
-                if b.alias == q:
-                    return b.value(name)
-        raise AnalysisError(f'unknown qualifier in `{text(n)}`')
-
-    def E(self, e: N, scopes: Scopes, frame: Optional[Frame]) -> Any:
-        """Value of an expression; raises Undecided."""
-        hs = e.__dict__.get('_jg_has_sub')
-        if hs is None:
-            hs = any(x.kind in ('subq', 'exists') for x in e.walk())
-            e.__dict__['_jg_has_sub'] = hs
-        if hs:
-            e = self._expand_subqueries(e, scopes, frame)
-        try:
-            return ev(e, lambda n: self._lookup(n, scopes, frame))
-        except Unbound as u:
-            raise Undecided(str(u)) from u
-
-    def _expand_subqueries(self, e: N, scopes: Scopes, frame: Optional[Frame]) -> N:
-        def repl(n: N) -> Optional[N]:
-            if n.kind == 'subq':
-                rows = self.run_select(n.select, scopes, frame)
-                return N('lit_rows', values=[next(iter(r.values())) if r else None for r in rows])
-            if n.kind == 'exists':
-                return N('lit', value=1 if self.run_select(n.select, scopes, frame) else 0)
-            if n.kind == 'in' and isinstance(n.items, N) and n.items.kind == 'lit_rows':
-                return N('in', arg=n.arg, items=[N('lit', value=v) for v in n.items.values], negated=n.negated)
-            return None
-
-        out = sf.subst(e, repl)
-
-        def scalar(n: N) -> Optional[N]:
-            if n.kind == 'lit_rows':
-                if len(n.values) > 1:
-                    raise AnalysisError('scalar subquery returns more than one row in the model')
-                return N('lit', value=n.values[0] if n.values else None)
-            return None
-        return sf.subst(out, scalar)
-
-    def truthy(self, e: Optional[N], scopes: Scopes, frame: Optional[Frame]) -> bool:
-        if e is None:
-            return True
-        return bool(_truth(self.E(e, scopes, frame)))
-
-    # -- FROM ------------------------------------------------------------------------
-    def _ref_rows(self, ref: N, outer: Scopes, frame: Optional[Frame]) -> List[List[Bind]]:
-        if ref.kind == 'table':
-            name = ref.name.lower().strip('`')
-            alias = (ref.alias or ref.name).lower().strip('`')
-            if self.world.modelled(name):
-                cols = self.world.cols_of(name)
-                return [[Bind(alias, name, r, cols)] for r in self.world.rows[name]]
-            return [[Bind(alias, name, None, self.world.schema.get(name, []), opaque=True)]]
-        if ref.kind == 'derived':
-            if getattr(ref, 'lateral', False):
-                raise AnalysisError('LATERAL derived table')
-            rows = self.run_select(ref.select, [], frame)
-            names = self._select_names(ref.select)
-            return [[Bind(ref.alias.lower(), None, r, names)] for r in rows]
-        if ref.kind == 'from':
-            return self.combos(ref, outer, frame)
-        raise AnalysisError(f'table reference kind {ref.kind}')
-
-    def _null_binds(self, ref: N) -> List[Bind]:
-        if ref.kind == 'table':
-            name = ref.name.lower().strip('`')
-            alias = (ref.alias or ref.name).lower().strip('`')
-            return [Bind(alias, name, None, self.world.cols_of(name))]
-        if ref.kind == 'derived':
-            return [Bind(ref.alias.lower(), None, None, self._select_names(ref.select))]
-        if ref.kind == 'from':
-            out = self._null_binds(ref.first)
-            for j in ref.joins:
-                out += self._null_binds(j.ref)
-            return out
-        raise AnalysisError(f'table reference kind {ref.kind}')
-
-    def combos(self, frm: Optional[N], outer: Scopes, frame: Optional[Frame], allow_opaque_left: bool = False) -> List[List[Bind]]:
-        if frm is None:
-            return [[]]
-        out = self._ref_rows(frm.first, outer, frame)
-        for j in frm.joins:
-            if getattr(j, 'using', None):
-                raise AnalysisError('JOIN ... USING')
-            right = self._ref_rows(j.ref, outer, frame)
-            opaque = any(b.opaque for r in right for b in r)
-            new: List[List[Bind]] = []
-            if opaque:
-                # an unmodelled table: acceptable only as the optional side of a LEFT JOIN in an UPDATE (its columns are never
-                # read by the model; at most one matching row is assumed, the row multiplicity of the left side is unchanged)
-                if not (allow_opaque_left and j.jtype == 'LEFT'):
-                    raise Undecided(f'join with unmodelled table {text(j.ref)[:40]}')
-                for c in out:
-                    new.append(c + right[0])
-                out = new
-                continue
-            if j.jtype not in ('INNER', 'LEFT', 'CROSS'):
-                raise AnalysisError(f'{j.jtype} JOIN')
-            for c in out:
-                matched = []
-                for r in right:
-                    cand = c + r
-                    if j.on is None or self.truthy(j.on, [cand] + outer, frame):
-                        matched.append(cand)
-                if j.jtype == 'LEFT' and not matched:
-                    matched = [c + self._null_binds(j.ref)]
-                new += matched
-            out = new
-        return out
-
-    # -- SELECT ----------------------------------------------------------------------
-    @staticmethod
-    def _select_names(sel: N) -> List[str]:
-        out = []
-        for c, a in sel.cols:
-            if a:
-                out.append(a.lower().strip('`'))
-            elif c.kind == 'col':
-                out.append(c.parts[-1].lower().strip('`'))
-            else:
-                out.append(text(c).lower())
-        return out
-
-    def _has_agg(self, e: N) -> bool:
-        ha = e.__dict__.get('_jg_has_agg')
-        if ha is None:
-            ha = any(x.kind == 'func' and x.name in AGGS and not getattr(x, 'over', None) for x in e.walk())
-            e.__dict__['_jg_has_agg'] = ha
-        return ha
-
-    def _eval_group(self, e: N, group: List[List[Bind]], template: List[Bind], outer: Scopes, frame: Optional[Frame]) -> Any:
-        def repl(n: N) -> Optional[N]:
-            if n.kind == 'func' and n.name in AGGS:
-                if n.name == 'COUNT' and n.args and n.args[0].kind == 'star':
-                    return N('lit', value=len(group))
-                if len(n.args) != 1:
-                    raise AnalysisError(f'aggregate {text(n)[:40]}')
-                vals = [self.E(n.args[0], [g] + outer, frame) for g in group]
-                vals = [int(v) if isinstance(v, bool) else v for v in vals if v is not None]
-                if getattr(n, 'distinct', False):
-                    vals = list(dict.fromkeys(vals))
-                if n.name == 'COUNT':
-                    return N('lit', value=len(vals))
-                if not vals:
-                    return N('lit', value=None)
-                return N('lit', value={'SUM': sum, 'MAX': max, 'MIN': min}[n.name](vals))
-            return None
-        e2 = sf.subst(e, repl)
-        first = group[0] if group else template
-        return self.E(e2, [first] + outer, frame)
-
-    def run_select(self, sel: N, outer: Scopes, frame: Optional[Frame]) -> List[Dict[str, Any]]:
-        if getattr(sel, 'union', None) or getattr(sel, 'ctes', None):
-            raise AnalysisError('UNION / WITH in a modelled select')
-        if sel.having is not None:
-            raise AnalysisError('HAVING in a modelled select')
-        combos = self.combos(sel.frm, outer, frame)
-        combos = [c for c in combos if self.truthy(sel.where, [c] + outer, frame)]
-        names = self._select_names(sel)
-        if any(c.kind == 'star' for c, _ in sel.cols):
-            raise AnalysisError('SELECT * in a modelled select')
-        rows: List[Tuple[Dict[str, Any], List[Bind]]] = []
-        if sel.group or any(self._has_agg(c) for c, _ in sel.cols):
-            groups: Dict[Tuple, List[List[Bind]]] = {}
-            if sel.group:
-                for c in combos:
-                    key = tuple(self.E(g, [c] + outer, frame) for g in sel.group)
-                    groups.setdefault(key, []).append(c)
-            else:
-                groups[()] = combos
-            template = self._null_binds(sel.frm) if sel.frm is not None else []
-            for g in groups.values():
-                rows.append(({n: self._cell(lambda c=c, g=g: self._eval_group(c, g, template, outer, frame)) for n, (c, _) in zip(names, sel.cols)}, g[0] if g else template))
-        else:
-            for cb in combos:
-                rows.append(({n: self._cell(lambda c=c, cb=cb: self.E(c, [cb] + outer, frame)) for n, (c, _) in zip(names, sel.cols)}, cb))
-        if sel.order and (sel.limit is not None or len(rows) > 1):
-            def key(item):
-                r, cb = item
-                ks = []
-                for e, d in sel.order:
-                    if e.kind == 'col' and e.parts[-1].lower() in r and len(e.parts) == 1:
-                        v = r[e.parts[-1].lower()]
-                    else:
-                        v = self.E(e, [cb] + outer, frame)
-                    if v is UNK:
-                        raise Undecided('ORDER BY key')
-                    ks.append((v is not None, v if not isinstance(v, bool) else int(v), d))
-                return ks
-            keyed = [(key(it), it) for it in rows]
-            for i in reversed(range(len(sel.order))):
-                desc = (sel.order[i][1] or 'ASC').upper() == 'DESC'
-                keyed.sort(key=lambda kv: (kv[0][i][0], kv[0][i][1] if kv[0][i][0] else 0), reverse=desc)
-            rows = [it for _, it in keyed]
-        out = [r for r, _ in rows]
-        if sel.distinct:
-            seen = []
-            for r in out:
-                if r not in seen:
-                    seen.append(r)
-            out = seen
-        if sel.limit is not None:
-            off = int(self.E(sel.offset, outer, frame)) if getattr(sel, 'offset', None) is not None else 0
-            out = out[off:off + int(self.E(sel.limit, outer, frame))]
-        return out
+    # -- values ------------------------------------------------------------------------
+    def var_env(self, frame: Frame, rowenv: Optional[Dict[str, Tuple[Optional[str], Optional[Dict[str, Any]], Sequence[str]]]] = None) -> Env:
+        """rowenv: alias -> (table, fields | None (= unknown row), visible columns)."""
+        def env(n: N) -> Any:
+            if n.kind == 'uvar':
+                return self.uvars.get(n.name.lower(), None)
+            if n.kind != 'col':
+                raise Undecided(text(n))
+            parts = [p.lower().strip('`') for p in n.parts]
+            if len(parts) == 1:
+                if parts[0] in frame.vars:
+                    return frame.vars[parts[0]]
+                if rowenv:
+                    cands = [a for a, (_, _, cols) in rowenv.items() if parts[0] in cols]
+                    if len(cands) == 1:
+                        return self._field(rowenv[cands[0]], parts[0])
+                    if len(cands) > 1:
+                        raise AnalysisError(f'ambiguous column {parts[0]}')
+                    if any(not cols for _, _, cols in rowenv.values()):
+                        raise Undecided(parts[0])
+                raise AnalysisError(f'identifier `{parts[0]}` is neither a variable nor a column in scope ({frame.routine})')
+            q = parts[-2]
+            if rowenv:
+                if q in rowenv:
+                    return self._field(rowenv[q], parts[-1])
+                byname = [a for a, (t, _, _) in rowenv.items() if t == q]
+                if len(byname) == 1:
+                    return self._field(rowenv[byname[0]], parts[-1])
+            raise AnalysisError(f'unknown qualifier in `{text(n)}` ({frame.routine})')
+        return env
 
     @staticmethod
-    def _cell(f: Callable[[], Any]) -> Any:
+    def _field(ent: Tuple[Optional[str], Optional[Dict[str, Any]], Sequence[str]], col: str) -> Any:
+        _, fields, _ = ent
+        if fields is None or col not in fields:
+            raise Undecided(col)
+        return fields[col]
+
+    def value(self, e: N, frame: Frame, rowenv=None) -> Any:
+        return self.E.ev(e, self.var_env(frame, rowenv))
+
+    def value_or_unk(self, e: N, frame: Frame, rowenv=None) -> Any:
         try:
-            return f()
+            return self.value(e, frame, rowenv)
         except Undecided:
             return UNK
 
-    # -- UPDATE ----------------------------------------------------------------------
-    def _tables_of(self, frm: Optional[N]) -> List[str]:
-        return [t.name.lower().strip('`') for t in sf.from_tables(frm) if t.kind == 'table']
+    # -- selections --------------------------------------------------------------------
+    def build_sel(self, frm: N, where: Optional[N], frame: Frame) -> Sel:
+        def value_of(e: N) -> Any:
+            if e.kind == 'col':
+                v = frame.vars[e.parts[0].lower()]
+            elif e.kind == 'uvar':
+                v = self.uvars.get(e.name.lower())
+            elif e.kind == 'lit':
+                v = e.value
+            else:
+                raise Undecided(text(e))
+            if v is UNK:
+                raise Undecided(text(e))
+            if isinstance(v, EnumVal):
+                v = self.case.enum(v.name)
+            return simp(v)
+        return SelBuilder(self.scn.schema, lambda n: n in frame.vars, value_of).build(frm, where)
 
-    def _mentions_modelled(self, node: Any) -> bool:
-        if isinstance(node, (list, tuple)):
-            return any(self._mentions_modelled(x) for x in node)
-        if not isinstance(node, N):
-            return False
-        key = ('m', id(node), self._wkey)
+    def _ignorable(self, i: Inst) -> bool:
+        return i.table is not None and i.table not in self.scn.tracked and i.jtype == 'LEFT'
+
+    def key_lookup(self, sel: Sel, alias: str) -> Tuple[Optional[str], Optional[str]]:
+        """(tag | None, problem | None) for a single-table selection: which tracked row do the pinned key columns denote?"""
+        inst = sel.insts[alias]
+        kc = self.scn.keycols.get(inst.table or '')
+        if kc is None:
+            raise AnalysisError(f'no key declared for tracked table {inst.table}')
+        vals = []
+        for c in kc:
+            p = sel.pinned(alias, c)
+            if len(p) != 1:
+                return None, f'key column {inst.table}.{c} is {"not pinned" if not p else "pinned to several values"}: the statement ranges over every row with the remaining conditions'
+            vals.append(value_key(p[0]))
+        return self.scn.keymap.get((inst.table or '', tuple(vals))), None
+
+    def row_filter(self, sel: Sel, alias: str, residual: Sequence[N], frame: Frame, rowenv) -> Optional[bool]:
+        """Do the remaining conditions (non-key pins on the target, residual conjuncts) hold for the role row?"""
+        inst = sel.insts[alias]
+        kc = set(self.scn.keycols.get(inst.table or '', ()))
+        ent = rowenv[alias]
+        for cl in sel.classes():
+            cols = [x for x in cl if x[0] == 'c' and x[1] == alias and x[2] not in kc]
+            vals = [sel.values[x] for x in cl if x[0] == 'v']
+            others = [x for x in cl if x[0] == 'c' and x[1] != alias and x[1] in rowenv]
+            if cols and vals and not others:
+                for x in cols:
+                    r = self.E.eq(self.E.res(self._field(ent, x[2])), vals[0])
+                    if not r:
+                        return False
+        for c in residual:
+            r = _truth(self.value(c, frame, rowenv))
+            if not r:
+                return False
+        return True
+
+    # -- statements --------------------------------------------------------------------
+    def _written_tracked(self, st: N) -> List[str]:
+        key = ('w', id(st), self._tk)
         r = _STATIC.get(key)
         if r is None:
-            r = any(x.kind == 'table' and self.world.modelled(x.name.strip('`')) for x in node.walk())
+            r = [t.lower().strip('`') for t, _ in sf.written_tables(st) if t.lower().strip('`') in self.scn.tracked]
             _STATIC[key] = r
         return r
 
-    def _written_modelled(self, st: N) -> List[str]:
-        key = ('w', id(st), self._wkey)
+    def _mentions_tracked(self, node: N) -> bool:
+        key = ('m', id(node), self._tk)
         r = _STATIC.get(key)
         if r is None:
-            r = [t.lower().strip('`') for t, _ in sf.written_tables(st) if self.world.modelled(t.strip('`'))]
+            r = any(x.kind == 'table' and x.name.lower().strip('`') in self.scn.tracked for x in node.walk())
             _STATIC[key] = r
         return r
 
-    def exec_update(self, st: N, frame: Frame) -> None:
-        if st.limit is not None or getattr(st, 'clause_holes', None):
-            raise AnalysisError('UPDATE with LIMIT on a modelled table')
-        combos = self.combos(st.frm, [], frame, allow_opaque_left=True)
-        combos = [c for c in combos if self.truthy(st.where, [c], frame)]
-        done: Dict[int, int] = {}
-        counts: Dict[str, int] = {}
-        for ci, cb in enumerate(combos):
-            real = [b for b in cb if b.table is not None]
-            touched: List[Bind] = []
-            for c, v in st.sets:
-                if c.kind != 'col':
-                    raise AnalysisError(f'UPDATE target {text(c)}')
-                parts = [p.lower().strip('`') for p in c.parts]
-                if len(parts) > 1:
-                    tb = [b for b in real if b.alias == parts[-2]]
-                else:
-                    tb = [b for b in real if b.has_col(parts[-1])]
-                    if len(tb) != 1 and len(real) == 1:
-                        tb = real
-                if len(tb) != 1:
-                    raise AnalysisError(f'cannot resolve UPDATE target {text(c)}')
-                b = tb[0]
-                if b.opaque or not self.world.modelled(b.table or ''):
-                    continue
-                if b.row is None:
-                    continue
-                if id(b.row) in done and done[id(b.row)] != ci:
-                    raise AnalysisError(f'a row of {b.table} is matched by more than one joined row in `{text(st)[:60]}`: the outcome depends on the execution plan')
-                try:
-                    val = self.E(v, [cb], frame)
-                except Undecided:
-                    val = UNK
-                b.row[parts[-1]] = val
-                if b not in touched:
-                    touched.append(b)
-            for b in touched:
-                done[id(b.row)] = ci
-                counts[b.table or ''] = counts.get(b.table or '', 0) + 1
-        for t in self._written_modelled(st):
-            self.writes.append((frame.routine, st, t, counts.get(t, 0)))
-
-    # -- statements ------------------------------------------------------------------
     def _effectful(self, stmts: Sequence[N], depth: int = 0) -> bool:
-        """Could executing these statements change a modelled table (directly, through a called routine, or by undoing the transaction)?"""
-        key = ('e', id(stmts), self._wkey, depth)
+        key = ('e', id(stmts), self._tk, depth)
         r = _STATIC.get(key)
         if r is None:
-            r = self._effectful0(stmts, depth)
-            if isinstance(stmts, list):
-                _STATIC[key] = r
+            r = False
+            for st in sf.all_statements(stmts):
+                k = st.kind
+                if k in ('update', 'insert', 'delete') and self._written_tracked(st):
+                    r = True
+                elif k == 'signal' or (k == 'txn' and st.what == 'ROLLBACK'):
+                    r = True
+                elif k == 'call':
+                    cal = self.prog.routines.get(st.name)
+                    if cal is None or (depth < self.max_call_depth and self._effectful(cal.ast.body, depth + 1)):
+                        r = True
+                if r:
+                    break
+            _STATIC[key] = r
         return r
-
-    def _effectful0(self, stmts: Sequence[N], depth: int = 0) -> bool:
-        for st in sf.all_statements(stmts):
-            k = st.kind
-            if k in ('update', 'insert', 'delete') and self._written_modelled(st):
-                return True
-            if k == 'signal' or (k == 'txn' and st.what == 'ROLLBACK'):
-                return True
-            if k == 'call':
-                r = self.prog.routines.get(st.name)
-                if r is None:
-                    return True
-                if depth < self.max_call_depth and self._effectful(r.ast.body, depth + 1):
-                    return True
-        return False
 
     def _relevant(self, stmts: Sequence[N]) -> bool:
-        """Effectful, or changes the control flow of an enclosing interpreted loop / routine."""
-        if self._effectful(stmts):
-            return True
-        return any(st.kind in ('leave', 'iterate', 'return') for st in sf.all_statements(stmts))
+        return self._effectful(stmts) or any(st.kind in ('leave', 'iterate', 'return') for st in sf.all_statements(stmts))
+
+    def _assign(self, target: N, val: Any, frame: Frame) -> None:
+        if target.kind == 'uvar':
+            self.uvars[target.name.lower()] = val
+        elif target.kind == 'col' and len(target.parts) == 1:
+            frame.vars[target.parts[0].lower()] = val
+        else:
+            raise AnalysisError(f'assignment target {text(target)}')
 
     def _havoc(self, stmts: Sequence[N], frame: Frame) -> None:
         for st in sf.all_statements(stmts):
@@ -500,14 +1018,6 @@ class Interp:
                     if mode != 'IN' and a.kind in ('col', 'uvar'):
                         self._assign(a, UNK, frame)
 
-    def _assign(self, target: N, val: Any, frame: Frame) -> None:
-        if target.kind == 'uvar':
-            self.uvars[target.name.lower()] = val
-        elif target.kind == 'col' and len(target.parts) == 1:
-            frame.vars[target.parts[0].lower()] = val
-        else:
-            raise AnalysisError(f'assignment target {text(target)}')
-
     def exec_block(self, stmts: Sequence[N], frame: Frame, depth: int) -> None:
         for st in stmts:
             self.exec_stmt(st, frame, depth)
@@ -516,117 +1026,190 @@ class Interp:
         k = st.kind
         if k == 'declare':
             for n in st.names:
-                try:
-                    frame.vars[n.lower()] = self.E(st.default, [], frame) if st.default is not None else None
-                except Undecided:
-                    frame.vars[n.lower()] = UNK
+                frame.vars[n.lower()] = self.value_or_unk(st.default, frame) if st.default is not None else None
         elif k == 'declare_cursor':
-            frame.cursors[st.name.lower()] = {'select': st.select, 'rows': None, 'pos': 0}
+            frame.cursors[st.name.lower()] = {'select': st.select, 'info': None}
         elif k == 'declare_handler':
             frame.handlers.append(st)
         elif k == 'set':
             for t, v in st.assigns:
-                try:
-                    val = self.E(v, [], frame)
-                except Undecided:
-                    val = UNK
-                self._assign(t, val, frame)
+                self._assign(t, self.value_or_unk(v, frame), frame)
         elif k == 'select':
             self._exec_select(st, frame)
         elif k == 'update':
-            if self._written_modelled(st):
-                try:
-                    self.exec_update(st, frame)
-                except Undecided as u:
-                    raise AnalysisError(f'{frame.routine}: effect of `{text(st)[:80]}` depends on {u}') from u
+            if self._written_tracked(st):
+                self._exec_update(st, frame)
         elif k in ('insert', 'delete'):
-            if self._written_modelled(st):
-                raise AnalysisError(f'{frame.routine}: {k.upper()} on modelled table in `{text(st)[:80]}` is outside the model')
+            if self._written_tracked(st):
+                raise AnalysisError(f'{frame.routine}: {k.upper()} on tracked table in `{text(st)[:80]}` is outside the abstraction')
         elif k == 'if':
             self._exec_if(st, frame, depth)
         elif k == 'block':
-            try:
-                self.exec_block(st.body, frame, depth)
-            except _Leave as l:
-                if getattr(st, 'label', None) is None or l.label != st.label.lower():
-                    raise
+            self.exec_block(st.body, frame, depth)
         elif k in ('loop', 'while'):
             self._exec_loop(st, frame, depth)
         elif k == 'leave':
             raise _Leave(st.label)
         elif k == 'iterate':
-            raise _Iterate(st.label)
+            raise AnalysisError(f'{frame.routine}: ITERATE is outside the abstraction')
         elif k == 'open':
             c = frame.cursors.get(st.name.lower())
             if c is None:
                 raise AnalysisError(f'OPEN of undeclared cursor {st.name}')
-            if self._mentions_modelled(c['select']):
-                try:
-                    c['rows'] = self.run_select(c['select'], [], frame)
-                except Undecided as u:
-                    raise AnalysisError(f'{frame.routine}: cursor {st.name} depends on {u}') from u
-            else:
-                c['rows'] = None
-            c['pos'] = 0
+            c['info'] = self.scn.cursor_hook(self, c['select'], frame) if (self.scn.cursor_hook is not None and self._mentions_tracked(c['select'])) else None
         elif k == 'fetch':
-            self._exec_fetch(st, frame, depth)
+            raise AnalysisError(f'{frame.routine}: FETCH outside the canonical cursor loop')
         elif k == 'close':
             pass
         elif k == 'call':
             self._exec_call(st, frame, depth)
         elif k == 'txn':
             if st.what == 'ROLLBACK':
-                self.world.restore(self.txn_snapshot)
+                self.rows = {k2: dict(v) for k2, v in self.snapshot.items()}
             else:
-                self.txn_snapshot = self.world.snapshot()
+                self.snapshot = {k2: dict(v) for k2, v in self.rows.items()}
         elif k == 'signal':
-            self.world.restore(self.txn_snapshot)
+            self.rows = {k2: dict(v) for k2, v in self.snapshot.items()}
             raise _Abort()
-        elif k == 'return':
-            raise AnalysisError('RETURN in a modelled routine')
-        elif k in ('other',):
+        elif k == 'other':
             pass
         else:
-            raise AnalysisError(f'{frame.routine}: statement kind {k} is outside the model')
+            raise AnalysisError(f'{frame.routine}: statement kind {k} is outside the abstraction')
 
+    # SELECT ... INTO
     def _exec_select(self, st: N, frame: Frame) -> None:
         if not st.into:
             return
-        if not self._mentions_modelled(st):
-            if st.frm is None:
-                for t, (c, _) in zip(st.into, st.cols):
-                    try:
-                        self._assign(t, self.E(c, [], frame), frame)
-                    except Undecided:
-                        self._assign(t, UNK, frame)
-                return
+        if st.frm is None:
+            for t, (c, _) in zip(st.into, st.cols):
+                self._assign(t, self.value_or_unk(c, frame), frame)
+            return
+        if not self._mentions_tracked(st):
             for t in st.into:
                 self._assign(t, UNK, frame)
             return
+        for h in self.scn.select_hooks:
+            vals = h(self, st, frame)
+            if vals is not None:
+                if len(vals) != len(st.into):
+                    raise AnalysisError('SELECT .. INTO arity')
+                for t, v in zip(st.into, vals):
+                    self._assign(t, v, frame)
+                return
+        sel = self.build_sel(st.frm, st.where, frame)
+        insts = {a: i for a, i in sel.insts.items() if not self._ignorable(i)}
+        if len(insts) != 1 or list(insts.values())[0].table not in self.scn.tracked or st.group or any(_has_agg(c) for c, _ in st.cols):
+            raise AnalysisError(f'{frame.routine}: read `{text(st)[:90]}` of a tracked table has a shape the abstraction does not classify')
+        alias = list(insts)[0]
+        tag, prob = self.key_lookup(sel, alias)
+        if prob is not None:
+            raise AnalysisError(f'{frame.routine}: `{text(st)[:80]}`: {prob}')
+        if tag is None:
+            for t in st.into:
+                self._assign(t, UNK, frame)
+            return
+        inst = sel.insts[alias]
+        rowenv = {alias: (inst.table, self.rows[(inst.table, tag)], inst.cols)}
         try:
-            rows = self.run_select(st, [], frame)
+            ok = self.row_filter(sel, alias, sel.residual, frame, rowenv)
         except Undecided:
             for t in st.into:
                 self._assign(t, UNK, frame)
             return
-        if len(rows) > 1:
-            raise AnalysisError(f'{frame.routine}: `{text(st)[:80]}` returns {len(rows)} rows in the model')
-        if not rows:
-            return  # variables keep their values (NOT FOUND warning)
-        names = self._select_names(st)
-        if len(names) != len(st.into):
-            raise AnalysisError(f'SELECT .. INTO arity in `{text(st)[:60]}`')
-        for t, n in zip(st.into, names):
-            self._assign(t, rows[0][n], frame)
+        if not ok:
+            return  # no row: variables keep their values
+        for t, (c, _) in zip(st.into, st.cols):
+            try:
+                v = self.var_env(frame, rowenv)(c) if c.kind == 'col' else self.value(c, frame, rowenv)
+            except Undecided:
+                v = UNK
+            self._assign(t, v, frame)
+
+    # UPDATE
+    def _exec_update(self, st: N, frame: Frame) -> None:
+        if st.limit is not None or getattr(st, 'clause_holes', None):
+            raise AnalysisError('UPDATE with LIMIT on a tracked table')
+        for h in self.scn.update_hooks:
+            if h(self, st, frame):
+                return
+        written = self._written_tracked(st)
+        if len(written) != 1:
+            raise AnalysisError(f'{frame.routine}: `{text(st)[:80]}` writes several tracked tables')
+        table = written[0]
+        sel = self.build_sel(st.frm, st.where, frame)
+        for i in sel.insts.values():
+            if i.table is not None and i.table not in self.scn.tracked and i.jtype != 'LEFT':
+                raise AnalysisError(f'{frame.routine}: `{text(st)[:80]}` restricts the rows through the untracked table {i.table}')
+        insts = {a: i for a, i in sel.insts.items() if not self._ignorable(i)}
+        targets: List[Tuple[RoleKey, Dict[str, Any], str]] = []
+        if len(insts) == 1:
+            alias = list(insts)[0]
+            if insts[alias].table != table:
+                raise AnalysisError(f'{frame.routine}: `{text(st)[:80]}`: target not recognised')
+            tag, prob = self.key_lookup(sel, alias)
+            if prob is not None:
+                raise Mismatch(table, st, prob)
+            if tag is None:
+                raise Mismatch(table, st, f'the statement writes a row of {table} other than the ones this operation is about (key {[sel.pinned(alias, c) for c in self.scn.keycols[table]]})')
+            inst = insts[alias]
+            targets.append(((table, tag), {alias: (inst.table, None, inst.cols)}, alias))
+            residual = list(sel.residual)
+        else:
+            found = None
+            for pat, handler in self.scn.update_patterns.get(table, []):
+                m, diff = match(sel, pat, self.scn.bind, self._ignorable)
+                if m is not None:
+                    found = (m, handler)
+                    break
+                if diff is not None:
+                    raise Mismatch(table, st, f'rows are selected by a condition that differs from `{pat.name}`: {diff}')
+            if found is None:
+                raise AnalysisError(f'{frame.routine}: selection of `{text(st)[:90]}` is not one the abstraction recognises')
+            m, handler = found
+            for rk, extra in handler(self, m, st):
+                talias = [a for v, a in m.alias.items() if sel.insts[a].table == table][0]
+                targets.append((rk, extra, talias))
+            residual = m.residual
+        for rk, extra, talias in targets:
+            row = self.rows[rk]
+            rowenv = dict(extra)
+            inst = sel.insts[talias]
+            rowenv[talias] = (inst.table, row, inst.cols)
+            for a, i in sel.insts.items():
+                if a not in rowenv:
+                    rowenv[a] = (i.table, None, i.cols)
+            try:
+                ok = self.row_filter(sel, talias, residual, frame, rowenv)
+            except Undecided as u:
+                raise AnalysisError(f'{frame.routine}: whether `{text(st)[:70]}` applies to a row depends on {u}') from u
+            if not ok:
+                continue
+            for c, v in st.sets:
+                if c.kind != 'col':
+                    raise AnalysisError(f'UPDATE target {text(c)}')
+                parts = [p.lower().strip('`') for p in c.parts]
+                if len(parts) > 1:
+                    ta = parts[-2] if parts[-2] in sel.insts else ([a for a, i in sel.insts.items() if i.table == parts[-2]] or [None])[0]
+                else:
+                    cands = [a for a, i in sel.insts.items() if parts[-1] in i.cols]
+                    ta = cands[0] if len(cands) == 1 else (talias if len(insts) == 1 else None)
+                if ta is None:
+                    raise AnalysisError(f'cannot resolve UPDATE target {text(c)}')
+                if ta != talias:
+                    if sel.insts[ta].table in self.scn.tracked:
+                        raise AnalysisError(f'{frame.routine}: `{text(st)[:70]}` also writes {sel.insts[ta].table}')
+                    continue
+                row[parts[-1]] = self.value_or_unk(v, frame, rowenv)
+            self.writes.append((frame.routine, st, rk))
 
     def _exec_if(self, st: N, frame: Frame, depth: int) -> None:
         for i, (c, body) in enumerate(st.branches):
             try:
-                v = self.truthy(c, [], frame)
+                v = _truth(self.value(c, frame))
             except Undecided as u:
                 rest = [b for _, b in st.branches[i:]] + ([st.orelse] if st.orelse is not None else [])
                 if any(self._relevant(b) for b in rest):
-                    raise AnalysisError(f'{frame.routine}: the guard `{text(c)[:80]}` decides whether modelled rows are written, but depends on {u}') from u
+                    raise AnalysisError(f'{frame.routine}: the guard `{text(c)[:80]}` decides whether tracked rows are written, but depends on {u}') from u
                 for b in rest:
                     self._havoc(b, frame)
                 return
@@ -637,47 +1220,61 @@ class Interp:
             self.exec_block(st.orelse, frame, depth)
 
     def _exec_loop(self, st: N, frame: Frame, depth: int) -> None:
+        """A loop that writes tracked rows must be the canonical cursor walk: FETCH first, leave exactly when the NOT FOUND handler has
+        fired, no state carried from one iteration to the next.  Its body is then executed ONCE for a generic element of the cursor."""
         if not self._effectful(st.body):
             self._havoc(st.body, frame)
             return
         label = (getattr(st, 'label', None) or '').lower()
-        for _ in range(self.MAX_ITER):
-            if st.kind == 'while':
-                try:
-                    if not self.truthy(st.cond, [], frame):
-                        return
-                except Undecided as u:
-                    raise AnalysisError(f'{frame.routine}: WHILE condition depends on {u}') from u
-            try:
-                self.exec_block(st.body, frame, depth)
-            except _Leave as l:
-                if l.label == label:
-                    return
+        if st.kind != 'loop' or not st.body or st.body[0].kind != 'fetch':
+            raise AnalysisError(f'{frame.routine}: a loop that writes tracked rows is not the canonical `LOOP FETCH ..` cursor walk')
+        fetch = st.body[0]
+        cur = frame.cursors.get(fetch.name.lower())
+        if cur is None or cur.get('info') is None:
+            raise AnalysisError(f'{frame.routine}: cursor {fetch.name} is not opened over a recognised selection')
+        hs = [h for h in frame.handlers if ' '.join(h.condition.split()) == 'NOT FOUND']
+        if len(hs) != 1 or hs[0].action != 'CONTINUE' or hs[0].stmt.kind != 'set' or len(hs[0].stmt.assigns) != 1:
+            raise AnalysisError(f'{frame.routine}: expected exactly one `DECLARE CONTINUE HANDLER FOR NOT FOUND SET flag = ..`')
+        flag_t, flag_v = hs[0].stmt.assigns[0]
+        flag = flag_t.parts[0].lower() if flag_t.kind == 'col' else None
+        exit_ok = (len(st.body) >= 2 and st.body[1].kind == 'if' and len(st.body[1].branches) == 1 and st.body[1].orelse is None
+                   and text(st.body[1].branches[0][0]).lower() in (flag, f'({flag} = true)', f'({flag} = 1)', f'({flag} <=> true)')
+                   and len(st.body[1].branches[0][1]) == 1 and st.body[1].branches[0][1][0].kind == 'leave' and st.body[1].branches[0][1][0].label.lower() == label)
+        if flag is None or not exit_ok or frame.vars.get(flag, UNK) not in (0, False):
+            raise AnalysisError(f'{frame.routine}: the cursor loop does not start with `FETCH ..; IF {flag} THEN LEAVE {label}; END IF` on a flag that is initially false')
+        # no loop-carried state: every variable read in the body is (re)assigned earlier in the same iteration, or never assigned in the loop
+        assigned: List[str] = []
+        for s2 in sf.all_statements(st.body):
+            if s2.kind == 'set':
+                assigned += [t.parts[0].lower() for t, _ in s2.assigns if t.kind == 'col']
+            elif s2.kind in ('select', 'fetch') and getattr(s2, 'into', None):
+                assigned += [t.parts[0].lower() for t in s2.into if t.kind == 'col']
+        defined: Set[str] = set()
+        for s2 in st.body:
+            reads = {x.parts[0].lower() for x in s2.walk() if x.kind == 'col' and len(x.parts) == 1 and x.parts[0].lower() in frame.vars} if s2.kind not in ('fetch',) else set()
+            if s2.kind in ('select', 'fetch') and getattr(s2, 'into', None):
+                reads -= {t.parts[0].lower() for t in s2.into if t.kind == 'col'}
+            carried = [v for v in reads if v in assigned and v not in defined and v != flag]
+            if carried:
+                raise AnalysisError(f'{frame.routine}: the cursor loop carries {carried} from one iteration to the next')
+            if s2.kind in ('select', 'fetch') and getattr(s2, 'into', None):
+                defined |= {t.parts[0].lower() for t in s2.into if t.kind == 'col'}
+            elif s2.kind == 'set':
+                defined |= {t.parts[0].lower() for t, _ in s2.assigns if t.kind == 'col'}
+        info = cur['info']
+        if len(fetch.into) != len(info['values']):
+            raise AnalysisError('FETCH arity')
+        for t, v in zip(fetch.into, info['values']):
+            self._assign(t, v, frame)
+        self.events.append(('loop', info))
+        try:
+            self.exec_block(st.body[2:], frame, depth)
+        except _Leave as l:
+            if l.label != label:
                 raise
-            except _Iterate as it:
-                if it.label != label:
-                    raise
-        raise AnalysisError(f'{frame.routine}: loop does not terminate within {self.MAX_ITER} iterations in the model')
-
-    def _exec_fetch(self, st: N, frame: Frame, depth: int) -> None:
-        c = frame.cursors.get(st.name.lower())
-        if c is None:
-            raise AnalysisError(f'FETCH from undeclared cursor {st.name}')
-        if c['rows'] is None:
-            raise AnalysisError(f'{frame.routine}: cursor {st.name} ranges over unmodelled tables')
-        if c['pos'] < len(c['rows']):
-            row = c['rows'][c['pos']]
-            c['pos'] += 1
-            names = self._select_names(c['select'])
-            if len(names) != len(st.into):
-                raise AnalysisError('FETCH arity')
-            for t, n in zip(st.into, names):
-                self._assign(t, row[n], frame)
-            return
-        hs = [h for h in frame.handlers if h.condition.replace('  ', ' ') in ('NOT FOUND', "SQLSTATE '02000'")]
-        if len(hs) != 1 or hs[0].action != 'CONTINUE':
-            raise AnalysisError(f'{frame.routine}: FETCH past the end without a single CONTINUE HANDLER FOR NOT FOUND')
-        self.exec_stmt(hs[0].stmt, frame, depth)
+            self.events.append(('early_leave', info))
+        self._havoc(st.body, frame)
+        frame.vars[flag] = self.value_or_unk(flag_v, frame)
 
     def _exec_call(self, st: N, frame: Frame, depth: int) -> None:
         r = self.prog.routines.get(st.name)
@@ -691,10 +1288,7 @@ class Interp:
             raise AnalysisError(f'CALL {st.name}: arity')
         sub = Frame(r.name)
         for (mode, pname, _), arg in zip(a.params, st.args):
-            try:
-                sub.vars[pname.lower()] = self.E(arg, [], frame) if mode != 'OUT' else None
-            except Undecided:
-                sub.vars[pname.lower()] = UNK
+            sub.vars[pname.lower()] = self.value_or_unk(arg, frame) if mode != 'OUT' else None
         try:
             self.exec_block(a.body, sub, depth + 1)
         except _Leave:
@@ -704,32 +1298,82 @@ class Interp:
                 self._assign(arg, sub.vars.get(pname.lower(), UNK), frame)
 
     def call(self, name: str, args: Dict[str, Any]) -> str:
-        """Run routine `name` with the given parameter values (others UNKNOWN).  Returns 'done' or 'aborted' (SIGNAL)."""
         r = self.prog.routine(name)
-        a = r.ast
         fr = Frame(r.name)
-        for mode, pname, _ in a.params:
+        for _, pname, _ in r.ast.params:
             fr.vars[pname.lower()] = args.get(pname.lower(), UNK)
-        self.txn_snapshot = self.world.snapshot()
         try:
-            self.exec_block(a.body, fr, 0)
+            self.exec_block(r.ast.body, fr, 0)
         except _Abort:
             return 'aborted'
-        except (_Leave, _Iterate):
-            raise AnalysisError(f'{name}: LEAVE / ITERATE escapes the routine body')
+        except _Leave:
+            raise AnalysisError(f'{name}: LEAVE escapes the routine body')
         return 'done'
+
+
+def _has_agg(e: N) -> bool:
+    ha = e.__dict__.get('_jg_has_agg')
+    if ha is None:
+        ha = any(x.kind == 'func' and x.name in ('SUM', 'COUNT', 'MAX', 'MIN', 'AVG') and not getattr(x, 'over', None) for x in e.walk())
+        e.__dict__['_jg_has_agg'] = ha
+    return ha
 
 
 def routine_params(prog: sf.SqlProgram, name: str) -> List[str]:
     return [p[1].lower() for p in prog.routine(name).ast.params]
 
 
+_schema_cache: Dict[int, Dict[str, List[str]]] = {}
+
+
 def full_schema(prog: sf.SqlProgram) -> Dict[str, List[str]]:
-    return {t.lower(): [c.lower() for c in cs] for t, cs in prog.tables.items()}
+    """Column names per table after migration replay.  sqlfront's own table map does not follow `RENAME TABLE a TO b, c TO d, ...`
+    (several pairs in one statement, as in 112-rename-job-groups-tables.sql); the DDL is replayed here with that form included."""
+    import re
+    from .common import read_repo
+    if id(prog) in _schema_cache:
+        return _schema_cache[id(prog)]
+    tables: Dict[str, List[str]] = {}
+    for sname in prog.scripts:
+        if not sname.endswith('.sql'):
+            continue
+        src = read_repo(f'batch/sql/{sname}')
+        for stmt in sf.split_sql_script(src):
+            body = sf._strip_leading_comments(stmt)
+            m = re.match(r'\s*CREATE\s+TABLE\s+(?:IF\s+NOT\s+EXISTS\s+)?`?([A-Za-z_0-9]+)`?', body, re.I)
+            if m:
+                tables[m.group(1).lower()] = [c.lower() for c in sf._table_columns(body)]
+                continue
+            m = re.match(r'\s*DROP\s+TABLE\s+(?:IF\s+EXISTS\s+)?`?([A-Za-z_0-9]+)`?', body, re.I)
+            if m:
+                tables.pop(m.group(1).lower(), None)
+                continue
+            m = re.match(r'\s*RENAME\s+TABLE\s+(.*)$', body, re.I | re.S)
+            if m:
+                for a, b in re.findall(r'`?([A-Za-z_0-9]+)`?\s+TO\s+`?([A-Za-z_0-9]+)`?', m.group(1), re.I):
+                    if a.lower() in tables:
+                        tables[b.lower()] = tables.pop(a.lower())
+                continue
+            m = re.match(r'\s*ALTER\s+TABLE\s+`?([A-Za-z_0-9]+)`?', body, re.I)
+            if m and m.group(1).lower() in tables:
+                t = m.group(1).lower()
+                m2 = re.search(r'\bRENAME\s+(?!INDEX\b|KEY\b|COLUMN\b)(?:TO\s+|AS\s+)?`?([A-Za-z_0-9]+)`?\s*(?:,|;|$)', body, re.I)
+                for mm in re.finditer(r'ADD\s+(?:COLUMN\s+)`?([A-Za-z_0-9]+)`?', body, re.I):
+                    if mm.group(1).lower() not in tables[t]:
+                        tables[t].append(mm.group(1).lower())
+                for mm in re.finditer(r'DROP\s+COLUMN\s+`?([A-Za-z_0-9]+)`?', body, re.I):
+                    if mm.group(1).lower() in tables[t]:
+                        tables[t].remove(mm.group(1).lower())
+                if m2:
+                    tables[m2.group(1).lower()] = tables.pop(t)
+    for t, cs in prog.tables.items():
+        tables.setdefault(t.lower(), [c.lower() for c in cs])
+    _schema_cache[id(prog)] = tables
+    return tables
 
 
 def need_no_trigger_feedback(prog: sf.SqlProgram, tables: Iterable[str]) -> None:
-    """The micro-world does not fire triggers: decline if a trigger on a modelled table itself writes a modelled table."""
+    """Triggers are not part of the abstraction: decline if a trigger on a tracked table itself writes a tracked table."""
     ts = {t.lower() for t in tables}
     for r in prog.routines.values():
         if r.kind != 'trigger':
@@ -740,23 +1384,142 @@ def need_no_trigger_feedback(prog: sf.SqlProgram, tables: Iterable[str]) -> None
         for st in sf.all_statements(a.body):
             for t, _ in sf.written_tables(st):
                 if t.lower() in ts:
-                    raise AnalysisError(f'trigger {r.name} on {a.table} writes {t}: the model of the routine effects does not cover trigger feedback')
+                    raise AnalysisError(f'trigger {r.name} on {a.table} writes {t}: the abstraction of the routine effects does not cover trigger feedback')
             if st.kind == 'set':
                 for tg, _ in st.assigns:
                     if tg.kind == 'col' and len(tg.parts) == 2 and tg.parts[0].upper() == 'NEW':
-                        raise AnalysisError(f'trigger {r.name} rewrites NEW.{tg.parts[1]} of {a.table}: outside the model')
+                        raise AnalysisError(f'trigger {r.name} rewrites NEW.{tg.parts[1]} of {a.table}: outside the abstraction')
             if st.kind == 'call':
                 cal = prog.routines.get(st.name)
                 if cal is None or any(t.lower() in ts for s2 in sf.all_statements(cal.ast.body) for t, _ in sf.written_tables(s2)):
-                    raise AnalysisError(f'trigger {r.name} calls {st.name}, which may write modelled tables')
+                    raise AnalysisError(f'trigger {r.name} calls {st.name}, which may write tracked tables')
 
 
-def jobs_writers(it: 'Interp', table: str) -> List[str]:
-    """Canonical text (shortened) of the statements that wrote `table` during the last run, in order, without repeats."""
+def statement_texts(ex: AbsExec, table: str) -> List[str]:
     out: List[str] = []
-    for _, st, t, n in it.writes:
-        if t == table:
+    for _, st, rk in ex.writes:
+        if rk[0] == table:
             s = text(st)[:70]
             if s not in out:
                 out.append(s)
     return out
+
+
+# ======================================================================================
+# the two routines of the job graph: scenarios
+# ======================================================================================
+
+STATES = ['Pending', 'Ready', 'Creating', 'Running', 'Success', 'Failed', 'Error', 'Cancelled']
+TERMINAL = ['Success', 'Failed', 'Error', 'Cancelled']
+NONTERMINAL = ['Pending', 'Ready', 'Creating', 'Running']
+TALLY = 'job_groups_n_jobs_in_complete_states'
+CLOSURE = 'job_group_self_and_ancestors'
+CATS = ('n_completed', 'n_succeeded', 'n_failed', 'n_cancelled')
+ANC_TAGS = ('own', 'anc', 'root')
+
+
+def _order_class(sel: N) -> str:
+    if not sel.order:
+        return 'unspecified'
+    e, d = sel.order[0]
+    if e.kind != 'col':
+        return 'unspecified'
+    col, desc = e.parts[-1].lower(), (d or 'ASC').upper() == 'DESC'
+    if col == 'ancestor_id':   # a parent group always has a smaller id than its children (asserted at creation)
+        return 'leaf-first' if desc else 'root-first'
+    if col == 'level':
+        return 'root-first' if desc else 'leaf-first'
+    return 'unspecified'
+
+
+def mark_job_complete_scenario(prog: sf.SqlProgram) -> Tuple[Scenario, Dict[str, Any]]:
+    """Roles: the finishing job (B, J) in group G; one dependent CH of it; the tally / job_groups rows of G itself, of a generic
+    self-or-ancestor K of G and of the root group 0; the batch row.  Count symbols: n (pending parents of the dependent, >= 1),
+    for every tally row its four counters, for every group row its gap = n_jobs - n_completed (>= 1: the finishing job itself is
+    still unfinished before the call); batches.n_jobs is the root group's n_jobs."""
+    B, J, G, K, CH, A = Sym('batch'), Sym('job'), Sym('group_of_job'), Sym('ancestor_group'), Sym('dependent'), Sym('attempt')
+    enums = {'new_state': list(TERMINAL), 'own_state': list(STATES), 'own_attempt': [A, None, Sym('other_attempt')], 'child_cancelled': [0, 1], 'child_always_run': [0, 1]}
+    ivals: Dict[str, Tuple[Optional[int], Optional[int]]] = {'n': (1, None)}
+    labels = {'new_state': 'reported new_state', 'own_state': 'state of the job before the call', 'own_attempt': 'attempt_id stored on the job', 'child_cancelled': 'dependent.cancelled before',
+              'child_always_run': 'dependent.always_run', 'n': 'dependent.n_pending_parents before'}
+    for t in ANC_TAGS:
+        ivals[f'gap_{t}'] = (1, None)
+        labels[f'gap_{t}'] = f'unfinished jobs (n_jobs - n_completed) of {"the job\'s own group" if t == "own" else ("a self-or-ancestor group of the job\'s group" if t == "anc" else "the root group / the batch")} before the call'
+    dom = Domain(enums, ivals, maybe_equal=[('group_of_job', 'ancestor_group')], labels=labels)
+    scn = Scenario(dom, full_schema(prog))
+    scn.bind = {'B': B, 'J': J, 'G': G}
+    scn.keycols = {'jobs': ('batch_id', 'job_id'), 'job_parents': ('batch_id', 'job_id', 'parent_id'), TALLY: ('id', 'job_group_id'), 'job_groups': ('batch_id', 'job_group_id'),
+                   'batches': ('id',), CLOSURE: ('batch_id', 'job_group_id', 'ancestor_id')}
+    scn.add_row('jobs', 'own', dict(batch_id=B, job_id=J, state=EnumVal('own_state'), attempt_id=EnumVal('own_attempt'), job_group_id=G), key=(B, J))
+    scn.add_row('jobs', 'child', dict(batch_id=B, job_id=CH, state='Pending', n_pending_parents=Lin({'n': 1}, 0), cancelled=EnumVal('child_cancelled'), always_run=EnumVal('child_always_run')), key=(B, CH))
+    gid = {'own': G, 'anc': K, 'root': 0}
+    for t in ANC_TAGS:
+        scn.add_row(TALLY, t, dict(id=B, job_group_id=gid[t], **{c: Lin({f'{c}_{t}': 1}, 0) for c in CATS}), key=(B, gid[t]))
+        scn.add_row('job_groups', t, dict(batch_id=B, job_group_id=gid[t], n_jobs=Lin({f'n_completed_{t}': 1, f'gap_{t}': 1}, 0), state='running', time_completed=None), key=(B, gid[t]))
+    scn.add_row('batches', 'b', dict(id=B, n_jobs=Lin({'n_completed_root': 1, 'gap_root': 1}, 0), state='running', time_completed=None), key=(B,))
+
+    def children(ex: AbsExec, m: Match, st: N):
+        ea = m.alias['E']
+        return [(('jobs', 'child'), {ea: ('job_parents', dict(batch_id=B, job_id=CH, parent_id=J), ['batch_id', 'job_id', 'parent_id'])})]
+
+    def tallies(ex: AbsExec, m: Match, st: N):
+        ca = m.alias['C']
+        return [((TALLY, t), {ca: (CLOSURE, dict(batch_id=B, job_group_id=G, ancestor_id=gid[t]), ['batch_id', 'job_group_id', 'ancestor_id', 'level'])}) for t in ANC_TAGS]
+
+    def groups(ex: AbsExec, m: Match, st: N):
+        ca = m.alias['C']
+        return [(('job_groups', t), {ca: (CLOSURE, dict(batch_id=B, job_group_id=G, ancestor_id=gid[t]), ['batch_id', 'job_group_id', 'ancestor_id', 'level'])}) for t in ANC_TAGS]
+
+    scn.update_patterns['jobs'] = [(Pattern('the dependents of the finishing job (jobs joined through job_parents on parent = this job, in this batch)', {'X': 'jobs', 'E': 'job_parents'},
+                                            [['X.batch_id', 'E.batch_id', '$B'], ['X.job_id', 'E.job_id'], ['E.parent_id', '$J']]), children)]
+    scn.update_patterns[TALLY] = [(Pattern('the tally rows of the job\'s group and all its ancestors (closure rows of the job\'s group, joined by ancestor_id)', {'T': TALLY, 'C': CLOSURE},
+                                           [['T.id', 'C.batch_id', '$B'], ['C.job_group_id', '$G'], ['T.job_group_id', 'C.ancestor_id']]), tallies)]
+    scn.update_patterns['job_groups'] = [(Pattern('the job_groups rows of the job\'s group and all its ancestors', {'T': 'job_groups', 'C': CLOSURE},
+                                                  [['T.batch_id', 'C.batch_id', '$B'], ['C.job_group_id', '$G'], ['T.job_group_id', 'C.ancestor_id']]), groups)]
+    cur_pat = Pattern('the closure rows of the finished job\'s group (all self-and-ancestor groups)', {'C': CLOSURE}, [['C.batch_id', '$B'], ['C.job_group_id', '$G']])
+
+    def cursor(ex: AbsExec, sel_node: N, frame: Frame):
+        if getattr(sel_node, 'union', None) or sel_node.group or sel_node.having is not None or sel_node.distinct or sel_node.frm is None:
+            raise AnalysisError('cursor over tracked tables: shape not recognised')
+        sel = ex.build_sel(sel_node.frm, sel_node.where, frame)
+        m, diff = match(sel, cur_pat, scn.bind, ex._ignorable)
+        if m is None and diff is None:
+            raise AnalysisError(f'cursor `{text(sel_node)[:80]}` does not range over {CLOSURE}')
+        if m is None:
+            raise Mismatch('job_groups', sel_node, f'the cursor does not range over {cur_pat.name}: {diff}')
+        if m.residual or sel_node.limit is not None:
+            raise Mismatch('job_groups', sel_node, 'the cursor over the self-and-ancestor groups is restricted by ' + (' AND '.join(text(c) for c in m.residual) or 'LIMIT') + ': some ancestors are never examined')
+        cols = [c.parts[-1].lower() if c.kind == 'col' else None for c, _ in sel_node.cols]
+        vals = []
+        for c in cols:
+            if c == 'ancestor_id':
+                vals.append(K)
+            elif c == 'batch_id':
+                vals.append(B)
+            elif c == 'job_group_id':
+                vals.append(G)
+            else:
+                vals.append(UNK)
+        return {'kind': 'ancestors', 'values': vals, 'order': _order_class(sel_node)}
+    scn.cursor_hook = cursor
+    syms = {'B': B, 'J': J, 'G': G, 'K': K, 'CH': CH, 'A': A}
+    return scn, syms
+
+
+def run_mark_job_complete(prog: sf.SqlProgram, scn: Scenario, syms: Dict[str, Any], case: Case) -> AbsExec:
+    ex = AbsExec(prog, scn, case)
+    args = {'in_batch_id': syms['B'], 'in_job_id': syms['J'], 'new_state': EnumVal('new_state'), 'in_attempt_id': syms['A'], 'new_timestamp': Sym('new_timestamp')}
+    ex.call('mark_job_complete', args)
+    return ex
+
+
+def own_transition(ex: AbsExec) -> Tuple[bool, Any, Any]:
+    """(did the job itself move into a terminal state in this call, state before, state after)."""
+    E = ex.E
+    post = ex.rows[('jobs', 'own')]['state']
+    if isinstance(post, EnumVal) and post.name == 'own_state':
+        pre = ex.case.choice.get('own_state', '(any)')
+        return False, pre, pre
+    pre = E.res(EnumVal('own_state'))
+    post = E.res(post)
+    return (post != pre and post in TERMINAL), pre, post
